@@ -35,6 +35,11 @@ type KnownFinding struct {
 	Property   string `json:"property"`
 	Obligation string `json:"obligation"`
 	Witness    string `json:"witness"`
+	// WitnessExpr/WitnessWant: a FHIRPath program evaluated on an empty input through the
+	// public API and the rendering (fmt.Sprint) of the result the *property* requires. While
+	// the real code still returns something else the finding is still present.
+	WitnessExpr string `json:"witness_expr,omitempty"`
+	WitnessWant string `json:"witness_want,omitempty"`
 	Status     string `json:"status"` // open | fixed
 	Commit     string `json:"commit,omitempty"`
 	Note       string `json:"note,omitempty"`
@@ -246,7 +251,7 @@ func checkProperty(e *engine.Engine, verif, id, tier string, seed int, loadS flo
 				continue
 			}
 			if kf, ok := knownOpen[ob.Name]; ok {
-				if ob.Status != "discharged" {
+				if ob.Status != "discharged" && witnessStillFails(e, kf) {
 					seenKnown[ob.Name] = true
 					knownLines = append(knownLines, fmt.Sprintf("KNOWN-FINDING: property=%s %s witness: %s", id, ob.Name, kf.Witness))
 					o.Status = "known-finding"
@@ -426,3 +431,54 @@ func cmdReplay(args []string) int {
 }
 
 func cmdSelftest(args []string) int { return 2 }
+
+var witnessCache = map[string]bool{}
+
+// witnessStillFails replays a known finding's recorded witness against the real code.
+func witnessStillFails(e *engine.Engine, kf KnownFinding) bool {
+	if kf.WitnessExpr == "" {
+		return true
+	}
+	if v, ok := witnessCache[kf.WitnessExpr]; ok {
+		return v
+	}
+	test := fmt.Sprintf(`package fhirpath_test
+
+import (
+	"fmt"
+	"testing"
+
+	"github.com/verily-src/fhirpath-go/fhirpath"
+	"github.com/verily-src/fhirpath-go/internal/fhir"
+)
+
+func TestVerifReplay(t *testing.T) {
+	defer func() {
+		if r := recover(); r != nil {
+			fmt.Printf("VERIF-WITNESS panic: %%v\n", r)
+		}
+	}()
+	e, err := fhirpath.Compile(%q)
+	if err != nil {
+		fmt.Printf("VERIF-WITNESS compile-error: %%v\n", err)
+		return
+	}
+	got, err := e.Evaluate([]fhir.Resource{})
+	if err != nil {
+		fmt.Printf("VERIF-WITNESS error: %%v\n", err)
+		return
+	}
+	fmt.Printf("VERIF-WITNESS %%v\n", got)
+}
+`, kf.WitnessExpr)
+	out, _ := engine.RunOverlayTest(e.RepoDir, "fhirpath", test)
+	got := ""
+	for _, l := range strings.Split(out, "\n") {
+		if i := strings.Index(l, "VERIF-WITNESS "); i >= 0 {
+			got = strings.TrimSpace(l[i+len("VERIF-WITNESS "):])
+		}
+	}
+	fails := got != kf.WitnessWant
+	witnessCache[kf.WitnessExpr] = fails
+	return fails
+}
